@@ -836,6 +836,9 @@ hwloc_backend_synthetic_init(struct hwloc_synthetic_backend_data_s *data,
     count++;
   }
 
+  /* the last level has no children, this arity also ends the walks over levels (e.g. when processing indexes below) */
+  data->level[count-1].arity = 0;
+
   /* set default attributes that depend on the depth/hierarchy of levels */
   for (i=0; i<count; i++) {
     struct hwloc_synthetic_attached_s *attached;
@@ -849,7 +852,6 @@ hwloc_backend_synthetic_init(struct hwloc_synthetic_backend_data_s *data,
   hwloc_synthetic_process_indexes(data, &data->numa_attached_indexes, data->numa_attached_nr, verbose);
 
   data->string = strdup(description);
-  data->level[count-1].arity = 0;
   return 0;
 
  error:
